@@ -25,10 +25,10 @@ KFS = ["C28-write-onto-folder-lands-inside", "C28-delete-removes-subtree", "C28-
        "C28-batch-delete-removes-parent-object"]
 
 
-def iconsts(maxops, inline=0, bkf=KFS, nameorder=False, copyunchecked=False, gensegs=("s5", "t7")):
+def iconsts(maxops, inline=0, bkf=KFS, nameorder=False, copyunchecked=False, gensegs=("s5", "t7"), genparts=(1, 2, 10000)):
     c = consts(maxops, inline)
     c.update({"Parent": vf.Raw("(" + " @@ ".join('%s :> %s' % (vf.tla_lit(k), vf.tla_lit(v)) for k, v in PARENT.items()) + ")"), "BKF": set(bkf), "NameOrder": nameorder, "CopyUnchecked": copyunchecked,
-              "GenSegs": set(gensegs)})
+              "GenSegs": set(gensegs), "GenParts": set(genparts)})
     return c
 
 
@@ -222,17 +222,33 @@ def run(ctx):
         ctx.judge("S3ObjectTrace", trace, "trace_base.cfg", consts(inline=INLINE), label="inl")
         return
     depth = 4 if ctx.thorough else 3
-    # the strict reading model-checked (deletes / writes touch exactly their keys, completion is ascending) and
-    # used as generator: G2 = one shortest history per (state, last request) over the overlapping names
+    ctx.sany("S3ObjectImpl")
+    kf = [k for k in KFS if k in ctx.kf_open]
+    # layer A: the strict reading model-checked (deletes / writes touch exactly their keys, completion ascending).
+    # layer B: the gateway's procedure over the filer's tree; every step is admitted by the strict action or by an
+    # open deviation (no further root cause in the model) - the same run emits one shortest history per distinct
+    # (tree incl. folders, uploads, last request): the scripts
     mc = ctx.instance("MC_S3Object", "S3Object", "S3Object_mc.cfg", consts(depth))
-    g2 = ctx.instance("G2_S3Object", "S3Object", "SPECIFICATION Spec\nINVARIANT EmitW\nVIEW View\nCHECK_DEADLOCK FALSE\n",
-                      consts(depth + 1))
+    gi = ctx.instance("G2_S3ObjectImpl", "S3ObjectImpl", 
+                      "SPECIFICATION ImplSpec\nINVARIANT ImplOK\nINVARIANT TypeOK\nINVARIANT EmitW\nVIEW IView\nCHECK_DEADLOCK FALSE\n",
+                      iconsts(depth + 1, bkf=kf))
     with ThreadPoolExecutor(max_workers=3) as pool:
         fb = pool.submit(ctx.build, "c28")
         fm = pool.submit(ctx.model_check, mc, 2, 1500)
-        fh = pool.submit(ctx.generate, g2, "W", 2, 1500)
+        fh = pool.submit(ctx.generate, gi, "W", 2, 1500)
         fm.result()
         hists, binp = fh.result(), fb.result()
+    if ctx.thorough:
+        # with a filer that keeps small files inline; and the predictions: without a deviation (or with a repaired
+        # defect put back) the model leaves the strict reading - each was then observed on the real gateway
+        ctx.model_check(ctx.instance("MC_S3ObjectImplInline", "S3ObjectImpl", "S3ObjectImpl_mc.cfg",
+                                     iconsts(4, inline=INLINE, bkf=kf, gensegs=("s5", "k3"))), 4, 1500)
+        preds = [("NoKF%d" % i, dict(bkf=[x for x in kf if x != k], inline=INLINE, gensegs=("s5", "k3"))) for i, k in enumerate(kf)]
+        preds += [("NameOrder", dict(bkf=kf, nameorder=True, genparts=(9999, 10000))), ("CopyUnchecked", dict(bkf=kf, copyunchecked=True))]
+        for name, kw in preds:
+            ctx.model_check(ctx.instance("MC_S3ObjectImplPredict" + name, "S3ObjectImpl",
+                                         "SPECIFICATION ImplSpec\nINVARIANT ImplOK\nCHECK_DEADLOCK FALSE\n", iconsts(4, **kw)),
+                            2, 900, expect_violation="ImplOK", coverage=False)
     ctx.notes["g2_histories"] = len(hists)
     if not ctx.thorough and len(hists) > 300:
         hists = rng.sample(hists, 300)
@@ -272,7 +288,7 @@ def run(ctx):
               mutate=mutate if ctx.seed % 2 else mutate_del, label="chk")
     ctx.judge("S3ObjectTrace", itrace, "trace_base.cfg", consts(inline=INLINE), nontrivial=nt,
               mutate=mutate_del if ctx.seed % 2 else mutate, label="inl")
-    ctx.rule = ("executions = (1) TLC-generated histories (one shortest per distinct (state, last request)) of put / "
+    ctx.rule = ("executions = (1) TLC-generated histories of the layer-B model (one shortest per distinct (tree with folders, uploads, last request)) of put / "
                 "streaming put / copy / copy of a missing key / delete / batch delete / get with ranges at the joins / "
                 "initiate / upload part / complete / abort over the overlapping names a, a/b, ab in two buckets; "
                 "(2) multipart uploads with part numbers from {1,2,3,9999,10000} in every upload order (quick: all orders "
